@@ -269,8 +269,20 @@ def run_pipelined(case, chooser):
             spy.armed = True
         s0 = rig.sessions[0]
         lines = [f"REST {k}", f"{op} old", after]
-        chooser.active = True
-        s0.send(("\r\n".join(lines) + "\r\n").encode())
+        if case.get("between"):
+            # a restart offset holds for the command right behind it and no other: with any command in between - also
+            # the one that sets up the data connection - the transfer is a whole one
+            rig.ev(0, f"REST {k}")
+            rig.ev(0, case["between"])
+            if case["between"] in ("EPSV", "PASV"):
+                rig.ev(0, "@data")
+            lines = [f"REST {k}", case["between"], f"{op} old", after]
+            k = 0
+            chooser.active = True
+            s0.send(f"{op} old\r\n{after}\r\n".encode())
+        else:
+            chooser.active = True
+            s0.send(("\r\n".join(lines) + "\r\n").encode())
         if late:
             w.settle(0)
             rig.ev(0, "@data")
@@ -455,6 +467,11 @@ def grid(tier):
                 for after in ("RETR missing", "STOR d/x/y", "NOOP", "REST 2", "PWD", "APPE missing/z"):
                     c = {"pipelined": True, "op": op, "k": k, "after": after, "backend": backend}
                     items.append((c, 1 if tier == "quick" else 2, ["order"], 3000 if tier == "quick" else 60000))
+                # ... a restart offset that was not used at once (another command in between: the transfer is whole)
+                if k:
+                    for between in ("EPSV", "PASV", "NOOP", "TYPE I", "PWD", "SYST", "MODE S", "FEAT"):
+                        c = {"pipelined": True, "op": op, "k": k, "after": "NOOP", "backend": backend, "between": between}
+                        items.append((c, 1 if tier == "quick" else 2, ["order"], 3000 if tier == "quick" else 60000))
                 # ... a change of the working directory behind a transfer by relative name, the data connection made late
                 for after in ("CWD sub", "CDUP", "PWD"):
                     c = {"pipelined": True, "op": op, "k": k, "after": after, "backend": backend, "late": True}
@@ -478,6 +495,7 @@ def run(tier, seed, t0):
               "client_read_styles": ["read(n) loops", "one read() until EOF", "reads given up after 0.3 / 0.7 s and re-issued"],
               "pipelined": "REST k + transfer + one more command in one segment x {memory, lookups waiting for executor "
                            "jobs, async} x order deviations",
+              "stale_restart": "REST 4, one of EPSV PASV NOOP 'TYPE I' PWD SYST 'MODE S' FEAT, then RETR / STOR / APPE: a whole transfer",
               "deviation_bound": 1 if tier == "quick" else 2, "cases": len(items)}
     return report.finish(
         PID, tier, seed, "model_checking", part, t0,
